@@ -15,6 +15,7 @@ for l in sys.stdin:
         ok.add(e["Package"]+"::"+e["Test"])
 missing=sorted(base-ok)
 print("baseline tests passing: %d/%d" % (len(base&ok), len(base)))
-for m in missing: print("  MISSING", m)
+for m in missing[:8]: print("  MISSING", m)
+if len(missing) > 8: print("  ... %d more" % (len(missing)-8))
 sys.exit(1 if missing else 0)
 '
